@@ -2,6 +2,7 @@
   C09 — tape creation is all-or-nothing and never over- or under-estimates capacity.
 -/
 import MotoModel.Props.C03
+import MotoModel.Proofs.TapeAny
 namespace Moto.C09
 open Moto Moto.Tape
 
@@ -100,5 +101,30 @@ theorem never_partial (w : World) (verbose : Bool) (archive : Str) (srcs : List 
     have hfit' : totalLen (allRaw w srcs) < Gen.Tape.tapeSize := by rw [needed_eq_encSize]; exact h
     exact ⟨_, C03.created_tape_is_k7 w verbose archive srcs hr hfit'⟩
   · left; exact (refused w verbose archive srcs hr h).2.1
+
+/-- **C09 (all or nothing — for every world and every source list, no hypothesis)**: whatever the files on
+    disk (missing, unreadable as far as the model goes, of any size), whatever the source arguments (any
+    names, the archive itself, non-ascii names, any number), `--create` either returns 0 and writes exactly
+    one file, the archive, of exactly 21504 bytes, or returns another status (or raises) and writes nothing. -/
+theorem all_or_nothing (w : World) (verbose : Bool) (archive : Str) (srcs : List Str) :
+    ((inject w verbose archive srcs).status = .ret 0
+      ∧ ∃ tape, (inject w verbose archive srcs).writes = [(archive, tape)] ∧ tape.length = 21504)
+    ∨ ((inject w verbose archive srcs).status ≠ .ret 0 ∧ (inject w verbose archive srcs).writes = []) := by
+  have h := injectLoop_any w archive srcs blank { verbose := verbose } [] (by simp [blank])
+  unfold inject
+  generalize injectLoop w archive blank { verbose := verbose } [] srcs = r at h ⊢
+  obtain ⟨st, out, ot⟩ := r
+  rcases h with ⟨h1, t', h2, h3⟩ | ⟨h1, h2⟩
+  · left
+    simp only at h1 h2 h3
+    subst h2
+    refine ⟨h1, t'.buf, rfl, ?_⟩
+    rw [h3]
+    simp [blank]
+    rfl
+  · right
+    simp only at h1 h2
+    subst h2
+    exact ⟨h1, rfl⟩
 
 end Moto.C09
